@@ -72,3 +72,51 @@ def windows(N):
 def chunked(seq, n):
     seq = list(seq)
     return [seq[i::n] for i in range(n)]
+
+
+# ---- scale family ----------------------------------------------------------------------------------------------
+# The small worlds above bound the NUMBER of blocks (<= 3-4) and the coordinates (<= 16).  A change that misbehaves only
+# beyond a size threshold (a fast path for "many blocks", a binary search over block starts, a short-cut for long
+# locations) has no witness there.  The scale family is a fixed, finite, completely enumerated set of LARGER layouts:
+# k blocks for every k of a ladder, block lengths and gap lengths cycling through short patterns in every phase.
+SCALE_K = {"quick": (4, 5, 6, 8, 11, 16, 24), "thorough": (4, 5, 6, 7, 8, 9, 10, 11, 13, 16, 17, 24, 32, 33, 40, 64)}
+SCALE_LEN_PATTERNS = ((1,), (2,), (1, 2, 3), (3, 1), (4, 2))
+SCALE_GAP_PATTERNS = ((1,), (0, 1), (2, 0, 1), (5,), (3, 3, 0))
+
+
+def scale_layouts(tier="quick", offset=0, ks=None):
+    """the scale family: yields (k, blocks) with blocks ascending, non-empty, gaps >= 0 (adjacent allowed)"""
+    seen = set()
+    for k in ks or SCALE_K[tier]:
+        npat = 3 if tier == "quick" else 5
+        for lp in SCALE_LEN_PATTERNS[:npat]:
+            for gp in SCALE_GAP_PATTERNS[:npat]:
+                for ph in range(max(len(lp), len(gp))):
+                    pos = offset
+                    bl = []
+                    for i in range(k):
+                        ln = lp[(i + ph) % len(lp)]
+                        bl.append((pos, pos + ln))
+                        pos += ln + gp[(i + ph) % len(gp)]
+                    bl = tuple(bl)
+                    if bl not in seen:
+                        seen.add(bl)
+                        yield k, bl
+
+
+def boundary_points(blocks, around=1):
+    """relative coordinates at (and within `around` of) every block boundary of a layout, incl. 0 and len"""
+    pts = set()
+    acc = 0
+    cum = [0]
+    for s, e in blocks:
+        acc += e - s
+        cum.append(acc)
+    for c in cum:
+        for d in range(-around, around + 1):
+            if 0 <= c + d <= acc:
+                pts.add(c + d)
+    return sorted(pts)
+
+
+BIG_OFFSETS = (1000, 2**17 - 3, 2**20 + 1, 2**31 + 5, 2**40)
